@@ -35,7 +35,10 @@ BaseCase == [prop |-> Prop, sub |-> "", tls |-> FALSE, kind |-> "http", method |
              cfgspell |-> "canon",
              accesslog |-> FALSE,
              hist |-> <<>>,          \* earlier requests through the same route (C13 histories), the own request last
-             hostlabel |-> "a"]      \* which of the hosts matching the route's host pattern is asked for    \* an access logger is configured (must not change what anybody receives)   \* configured header names in canonical MIME spelling, or as people write them ("odd": X-TLS, X-Client-IP)
+             hostlabel |-> "a",
+             together |-> FALSE,     \* the requests of hist arrive simultaneously, at a proxy that has not served anything yet
+             pagehist |-> <<>>,      \* no-route pages the registry delivers, one after the other, before the request ("" = removed)
+             flip |-> <<>>]          \* no-route pages the registry alternates between WHILE the request is answered      \* which of the hosts matching the route's host pattern is asked for    \* an access logger is configured (must not change what anybody receives)   \* configured header names in canonical MIME spelling, or as people write them ("odd": X-TLS, X-Client-IP)
 Ordinary(src, strip, prepend, hostopt, tq) ==
     [NoRouteRec EXCEPT !.src = src, !.strip = strip, !.prepend = prepend, !.hostopt = hostopt, !.tquery = tq]
 Tpl(scheme, host, pre, var, slash, q) == [scheme |-> scheme, host |-> host, pre |-> pre, var |-> var, slash |-> slash, query |-> q]
@@ -85,7 +88,8 @@ C07EncPrepends == << <<>>, <<S, "s", "U+F6", "k">>, <<S, "a", "^", "b">>, <<"U+F
 C07EncAmbiguous(p, s, pp) == /\ C07EncPrepends[pp] # <<>> /\ C07EncStrips[s] # <<>> /\ IsPrefixDec(C07EncStrips[s], C07EncPaths[p])
                              /\ LET rest == Drop(C07EncPaths[p], Len(C07EncStrips[s])) IN rest = <<>> \/ rest[1] # S
 \* --- never sliced: queries with empty parameters (leading, trailing, doubled "&")
-C07AmpQueries  == << <<"", "a=1">>, <<"a=1", "">>, <<"a=1", "", "b=2">>, <<"", "">>, <<"", "a=1", "">> >>
+C07AmpQueries  == << <<"", "a=1">>, <<"a=1", "">>, <<"a=1", "", "b=2">>, <<"", "">>, <<"", "a=1", "">>,
+                     <<"a=1;b=2", "c=3">>, <<"z=9", "x=%zz", "a=1">>, <<"p=100%", "a=1">>, <<"trace=k", "b=2;a=1">> >>   \* semicolons, bad escapes
 C07AmpTQs      == << <<>>, <<"t=1">> >>
 \* --- never sliced: informational answers before the final one (103 Early Hints, 102 Processing) and
 \* requests with Expect: 100-continue; <<header set, upstream answer>>
@@ -99,7 +103,13 @@ C07Statuses == <<"st200", "st299", "st300", "st404", "st499", "st500", "st599", 
 C07Faults   == <<"cutcl", "cutchunked", "cutchunked0", "rstchunked", "cuthead">>
 
 \* --- never sliced: strip leaving nothing or a relative rest, with and without a prefix put in front
+\* --- never sliced: the no-route page as the registry leaves it after a history of operations, and while it changes
+C07PageHists == << <<"page">>, <<"page", "">>, <<"page", "page2">>, <<"page", "", "page2">>, <<"page", "page2", "">>,
+                   <<"", "page">>, <<"page", "page">>, <<"page2", "", "">> >>
+C07Flips     == << <<"page", "page2">>, <<"", "page">>, <<"", "page", "page2">> >>
 C07Outer == {<<"status", m, p>> : m \in {1, 2}, p \in {3}}
+            \cup {<<"pagehist", m, p>> : m \in {1, 2}, p \in {1, 2}}
+            \cup {<<"flip", m, p>> : m \in {1, 2}, p \in {1, 2}}
             \cup {<<"rest", m, p>> : m \in {1, 2}, p \in {1, 2, 3, 4, 7}}
             \cup {<<"fault", m, p>> : m \in {1, 2}, p \in {3, 4}}
             \cup {<<"fwd", m, p>> : m \in DOMAIN C07Methods, p \in DOMAIN C07Paths}
@@ -126,6 +136,16 @@ C07Inner(o) ==
                            !.resp = C07Statuses[t[1]], !.accesslog = (t[3] = 2),
                            !.routes = << Ordinary(<<S, "strip">>, <<>>, <<>>, "", <<>>) >>] :
           t \in (DOMAIN C07Statuses) \X {1, 2} \X {1, 2} }
+    ELSE IF o[1] = "pagehist" THEN
+        { [BaseCase EXCEPT !.sub = "pagehist", !.method = C07Methods[o[2]], !.path = C07NRPaths[o[3]], !.tls = (t[2] = 2),
+                           !.pagehist = C07PageHists[t[1]], !.nrstatus = C07NRStatus[t[3]],
+                           !.routes = IF o[3] = 1 THEN <<>> ELSE << Ordinary(<<S, "strip">>, <<>>, <<>>, "", <<>>) >>] :
+          t \in (DOMAIN C07PageHists) \X {1, 2} \X {1, 2} }
+    ELSE IF o[1] = "flip" THEN
+        { [BaseCase EXCEPT !.sub = "flip", !.method = C07Methods[o[2]], !.path = C07NRPaths[o[3]], !.tls = (t[2] = 2),
+                           !.flip = C07Flips[t[1]], !.nrpage = C07Flips[t[1]][1], !.accesslog = (t[3] = 2),
+                           !.routes = IF o[3] = 1 THEN <<>> ELSE << Ordinary(<<S, "strip">>, <<>>, <<>>, "", <<>>) >>] :
+          t \in (DOMAIN C07Flips) \X {1, 2} \X {1, 2} }
     ELSE IF o[1] = "rest" THEN
         { [BaseCase EXCEPT !.sub = "rest", !.method = C07Methods[o[2]], !.path = C07Paths[o[3]], !.tls = (t[3] = 2),
                            !.routes = << Ordinary(<<S, "strip">>, C07Strips[t[1]], C07Prepends[t[2]], "", <<>>) >>] :
@@ -175,7 +195,21 @@ C08RHosts == <<"plain", "ported">>
 C08XffStyles == <<"absent", "once", "twice", "sfx", "pfx", "dup", "truefirst">>
 C08OtherStyles == <<"absent", "once", "truefirst", "truelast">>
 C08PeerCfgs  == << <<TRUE, TRUE, TRUE, "canon">>, <<TRUE, TRUE, TRUE, "odd">>, <<FALSE, FALSE, FALSE, "canon">> >>
-C08Outer  == ({<<n, st>> : n \in 0..255, st \in DOMAIN C08Styles} \ {<<0, st>> : st \in 2..5})
+\* --- never sliced: several requests over ONE keep-alive connection to one of fabio's own listeners, asking for
+\* different hosts (with and without a port) in every position.  Outer <<2000 + first request, second request>>
+C08ConnReqs == << [host |-> "a", rhost |-> "plain", path |-> <<S, "h", S, "x">>, query |-> <<>>],
+                  [host |-> "b", rhost |-> "plain", path |-> <<S, "h", S, "x">>, query |-> <<>>],
+                  [host |-> "a", rhost |-> "ported", path |-> <<S, "h", S, "x">>, query |-> <<>>],
+                  [host |-> "b", rhost |-> "ported", path |-> <<S, "h", S, "x">>, query |-> <<>>] >>
+C08ConnInner(o) ==
+    { LET h == IF t[1] = 1 THEN <<C08ConnReqs[o[1] - 2000], C08ConnReqs[o[2]]>>
+               ELSE <<C08ConnReqs[o[1] - 2000], C08ConnReqs[o[2]], C08ConnReqs[o[1] - 2000]>>
+          own == h[Len(h)] IN
+      [BaseCase EXCEPT !.sub = "conn", !.tls = (t[2] = 2), !.path = own.path, !.hist = h,
+                       !.rhost = own.rhost, !.hostlabel = own.host,
+                       !.routes = << [Ordinary(<<S>>, <<>>, <<>>, C08HostOpts[t[3]], <<>>) EXCEPT !.ghost = TRUE] >>] :
+      t \in {1, 2} \X {1, 2} \X {1, 2} }
+C08Outer  == {<<2000 + x, y>> : x \in DOMAIN C08ConnReqs, y \in DOMAIN C08ConnReqs} \cup ({<<n, st>> : n \in 0..255, st \in DOMAIN C08Styles} \ {<<0, st>> : st \in 2..5})
              \cup {<<1000 + x, y>> : x \in DOMAIN C08XffStyles, y \in DOMAIN C08OtherStyles}
 C08PeerInner(o) ==
     { [BaseCase EXCEPT !.sub = "peer", !.tls = (t[1] = 2), !.kind = C08Kinds[t[2]], !.path = <<S, "h", S, "x">>,
@@ -187,7 +221,7 @@ C08PeerInner(o) ==
                        !.peer = IF t[4] = 1 THEN "v4" ELSE "v6",
                        !.routes = << Ordinary(<<S>>, <<>>, <<>>, "", <<>>) >>] :
       t \in {1, 2} \X (DOMAIN C08Kinds) \X (DOMAIN C08PeerCfgs) \X {1, 2} }
-C08Inner(o) == IF o[1] >= 1000 THEN C08PeerInner(o) ELSE
+C08Inner(o) == IF o[1] >= 2000 THEN C08ConnInner(o) ELSE IF o[1] >= 1000 THEN C08PeerInner(o) ELSE
     { [BaseCase EXCEPT !.sub = "hdr", !.tls = (t[1] = 2), !.kind = C08Kinds[t[2]], !.path = <<S, "h", S, "x">>,
                        !.forged = C08Forged(o[1], o[2]),
                        !.xfpval = IF t[1] = 2 THEN "http" ELSE "https",       \* a forged X-Forwarded-Proto lies
@@ -263,16 +297,19 @@ C13HistTpls == << Tpl("https", "$host", <<S, "new">>, TRUE, FALSE, <<>>),       
                   Tpl("http", "$host", <<S, "new">>, TRUE, TRUE, <<"q=1">>),       \* http://$host/new/$path?q=1
                   Tpl("https", "$host", <<S>>, FALSE, FALSE, <<>>),                \* https://$host/
                   Tpl("https", "t.example", <<>>, TRUE, FALSE, <<>>) >>            \* https://t.example$path
-C13HistReqs == << [host |-> "a", path |-> <<S, "hist", S, "x">>, query |-> <<>>],
-                  [host |-> "b", path |-> <<S, "hist", S, "x">>, query |-> <<>>],
-                  [host |-> "a", path |-> <<S, "hist", S, "y">>, query |-> <<>>],
-                  [host |-> "b", path |-> <<S, "hist", S, "y">>, query |-> <<>>],
-                  [host |-> "a", path |-> <<S, "hist", S, "x">>, query |-> <<"a=1">>],
-                  [host |-> "b", path |-> <<S, "hist", S, "x">>, query |-> <<"a=1">>],
-                  [host |-> "a", path |-> <<S, "hist", S, "a", "%2F", "b">>, query |-> <<>>],
-                  [host |-> "b", path |-> <<S, "hist", S, "a", "%2F", "b">>, query |-> <<"a=1">>] >>
+C13HistReqs == << [host |-> "a", rhost |-> "plain", path |-> <<S, "hist", S, "x">>, query |-> <<>>],
+                  [host |-> "b", rhost |-> "plain", path |-> <<S, "hist", S, "x">>, query |-> <<>>],
+                  [host |-> "a", rhost |-> "plain", path |-> <<S, "hist", S, "y">>, query |-> <<>>],
+                  [host |-> "b", rhost |-> "plain", path |-> <<S, "hist", S, "y">>, query |-> <<>>],
+                  [host |-> "a", rhost |-> "plain", path |-> <<S, "hist", S, "x">>, query |-> <<"a=1">>],
+                  [host |-> "b", rhost |-> "plain", path |-> <<S, "hist", S, "x">>, query |-> <<"a=1">>],
+                  [host |-> "a", rhost |-> "plain", path |-> <<S, "hist", S, "a", "%2F", "b">>, query |-> <<>>],
+                  [host |-> "b", rhost |-> "plain", path |-> <<S, "hist", S, "a", "%2F", "b">>, query |-> <<"a=1">>] >>
 
-C13Outer == {<<"history", tp, r1, r2, 1>> : tp \in DOMAIN C13HistTpls, r1 \in DOMAIN C13HistReqs, r2 \in DOMAIN C13HistReqs}
+\* --- never sliced: the first requests a proxy ever serves arrive simultaneously (8 at once, one redirect route)
+C13BurstCodes == << Code("301", 301), Code("302", 302), Code("307", 307), Code("308", 308) >>
+C13Outer == {<<"burst", tp, cd, 1, 1>> : tp \in DOMAIN C13HistTpls, cd \in DOMAIN C13BurstCodes}
+            \cup {<<"history", tp, r1, r2, 1>> : tp \in DOMAIN C13HistTpls, r1 \in DOMAIN C13HistReqs, r2 \in DOMAIN C13HistReqs}
             \cup {<<"kinds", tp, cd, kd, 1>> : tp \in DOMAIN C13KindTpls, cd \in DOMAIN C13KindCodes, kd \in DOMAIN C13Kinds}
             \cup {<<"encopt", tp, s, pp, 1>> : tp \in DOMAIN C13EncTpls, s \in DOMAIN C13EncStrips, pp \in DOMAIN C13EncPrepends}
             \cup {<<"redir", tp, cd, s, pp>> : tp \in DOMAIN C13Tpls, cd \in DOMAIN C13Codes, s \in DOMAIN C13Strips, pp \in DOMAIN C13Prepends}
@@ -288,6 +325,12 @@ C13Inner(o) ==
           t \in { u \in (DOMAIN C13Paths) \X (DOMAIN C13Queries) \X (DOMAIN C13RHosts) \X {1, 2} :
                   /\ ~C13Skip(o[2], o[4], o[5], u[1])
                   /\ Keep(o[2] + 5 * o[3] + 7 * o[4] + 11 * o[5] + 3 * u[1] + 13 * u[2] + 17 * u[3] + 19 * u[4]) } }
+      [] o[1] = "burst" ->
+        { [BaseCase EXCEPT !.sub = "burst", !.tls = (t = 2), !.hist = C13HistReqs, !.together = TRUE,
+                           !.path = C13HistReqs[8].path, !.query = C13HistReqs[8].query, !.hostlabel = C13HistReqs[8].host,
+                           !.routes = << [Ordinary(<<S, "hist">>, <<>>, <<>>, "", <<>>)
+                                          EXCEPT !.code = C13BurstCodes[o[3]], !.tpl = C13HistTpls[o[2]], !.ghost = TRUE] >>] :
+          t \in {1, 2} }
       [] o[1] = "history" ->
         \* t[1] = 1: the two requests; t[1] = 2: the first one once more at the end
         { LET h == IF t[1] = 1 THEN <<C13HistReqs[o[3]], C13HistReqs[o[4]]>>
@@ -335,6 +378,10 @@ DenyOuter == {1, 2}
 DenyInner(o) == { [BaseCase EXCEPT !.sub = "deny", !.routes = << [Ordinary(<<S>>, <<>>, <<>>, "", <<>>) EXCEPT !.admitted = (o = 1)] >>] }
 
 \* one JSON line per finished case
-Gen == pc = "done" => PrintT(ToJson([c |-> c, up |-> up, hits |-> hits, out |-> out,
-                                      answers |-> IF c.hist = <<>> THEN <<>> ELSE HistAnswers(route)]))
+\* (a case whose page changes while it is answered has several final states: the one that has seen every page
+\* and is back at the first one is printed)
+Gen == (pc = "done" /\ (c.flip # <<>> => (env.page = c.flip[1] /\ env.seen = {c.flip[k] : k \in DOMAIN c.flip})))
+       => PrintT(ToJson([c |-> c, up |-> up, hits |-> hits, out |-> out,
+                         answers |-> IF c.hist = <<>> \/ out.kind # "redirect" THEN <<>> ELSE HistAnswers(route),
+                         conn |-> IF c.hist = <<>> \/ out.kind # "upstream" THEN <<>> ELSE ConnAnswers]))
 =============================================================================
